@@ -147,7 +147,7 @@ GROUP = dict(
                                  "scenario family: corridors with sidings and lockout foul links; junctions with several O/D links are "
                                  "not generated (make_est_times aborts on them: observation F-C15-2)"]),
         "C05": dict(invariants=["RouteValid", "Complete", "HaveFinalSnapshot", "ResultIsFinalPlan", "AllTimed", "AllCommitted",
-                                "FreeRun", "ErrNamesTrains", "NoPanic", "FinalAllTimed", "MonotonePlan"],
+                                "FreeRun", "PlanIsWalk", "ErrNamesTrains", "NoPanic", "FinalAllTimed", "MonotonePlan"],
                     assumptions=["memory safety is observed, not proved: the harness build has debug assertions, overflow checks and "
                                  "unsafe-precondition checks on, so an out-of-range get_unchecked aborts the process and is recorded",
                                  "termination: per-scenario wall-clock limit (60 s) in the harness",
@@ -172,8 +172,10 @@ GROUP = dict(
     vacuity=vacuity,
     drift_report=lambda r: (f"{r['stats'].get('tau_drift', 0)} of {r['stats'].get('tau_checked', 0)} node times differ from the gate "
                             f"formula of Dispatch!Advance; {r['stats'].get('auth_disagree', 0)} snapshots whose authority table "
-                            f"disagrees with the plans; {r['stats'].get('committed_unstable', 0)} with changed committed nodes")
-    if (r["stats"].get("tau_drift", 0) or r["stats"].get("auth_disagree", 0) or r["stats"].get("committed_unstable", 0)) else None,
+                            f"disagrees with the plans; {r['stats'].get('committed_unstable', 0)} with changed committed nodes; "
+                            f"{r['stats'].get('not_walk', 0)} whose path is not a walk of the est-time net; "
+                            f"{r['stats'].get('blocked_disagree', 0)} whose blocked table disagrees with the authorities")
+    if any(r["stats"].get(k, 0) for k in ("tau_drift", "auth_disagree", "committed_unstable", "not_walk", "blocked_disagree")) else None,
 )
 
 ENGINE = dict(name="Dispatch", path="specs/Dispatch.tla", serves_properties=["C04", "C05", "C15"],
